@@ -344,6 +344,8 @@ def run(pid, mod, tier, seed, t0):
         if any(b['kind'] not in ('lean-obligation', 'hand-model-pin') for b in broken):
             discharged = 0
     # 4. correspondence
+    import purity
+    purity.install()
     corr = {'cases': 0, 'disagreements': [], 'stats': {}}
     if hasattr(mod, 'correspondence') and not any(b['kind'] == 'translator-refused' for b in broken):
         try:
@@ -355,7 +357,19 @@ def run(pid, mod, tier, seed, t0):
             broken.append({'kind': 'correspondence', 'what': d.get('fn', '?'), 'detail': d})
     # 5. failing-input search on the real code
     ctx.boost = bool(broken)
-    orc = mod.oracle(ctx, hints=[b['detail'] for b in broken])
+    try:
+        orc = mod.oracle(ctx, hints=[b['detail'] for b in broken])
+    except Exception as e:
+        purity.uninstall()
+        if not broken:
+            raise
+        # the code under test no longer behaves like anything the search harness anticipated (e.g. wrong result
+        # shapes): the obligation/correspondence is broken anyway, report that rather than an infrastructure failure
+        ctx.notes.append('failing-input search aborted: %s: %s' % (type(e).__name__, str(e)[:300]))
+        orc = {'evaluations': 0, 'distinct_nontrivial': 0, 'violations': []}
+    purity.uninstall()
+    orc.setdefault('violations', [])
+    orc['violations'] = purity.violations() + list(orc['violations'])
     known = [k for k in load_known() if k['property'] == pid and k.get('status') == 'known']
     new_viol, known_hit = [], {}
     for v in orc.get('violations', []):
